@@ -380,6 +380,30 @@ def is_opaque(x):
     return isinstance(x, (OpaqueStr, OpaqueBytes))
 
 
+class LazyGen:
+    """A generator object (generator expression or generator function call): its
+    body runs when it is first consumed, not where it is created - so an
+    exception raised while producing an item surfaces at the consumer, outside
+    any try block that only surrounds the creation.  (Approximation: the whole
+    body runs at the first consumption, not item by item.)"""
+    def __init__(self, thunk):
+        self.thunk = thunk
+        self.buf = None
+
+    def take_all(self):
+        if self.buf is None:
+            self.buf = self.thunk()
+        out, self.buf = self.buf, []
+        return out
+
+    def take_one(self):
+        if self.buf is None:
+            self.buf = self.thunk()
+        if not self.buf:
+            raise AbsRaise("StopIteration", "")
+        return self.buf.pop(0)
+
+
 class Count:
     """itertools.count(start, step): infinite; only zip() and islice() may consume it."""
     def __init__(self, start=0, step=1):
@@ -505,13 +529,18 @@ class Interp:
         n["isinstance"] = Native("isinstance", self._isinstance)
         n["hasattr"] = Native("hasattr", self._hasattr)
         n["getattr"] = Native("getattr", self._getattr)
-        n["len"] = Native("len", lambda i, a, k: len(self._as_list(a[0])))
+        def _len(i, a, k):
+            if isinstance(a[0], (LazyGen, Repeat, Count)):
+                raise AbsRaise("TypeError", "object of type 'generator' has no len()")
+            return len(self._as_list(a[0]))
+        n["len"] = Native("len", _len)
         n["max"] = Native("max", lambda i, a, k: self._minmax(a, True, k))
         n["min"] = Native("min", lambda i, a, k: self._minmax(a, False, k))
         n["object"] = Native("object", lambda i, a, k: Obj(None))
         n["tuple"] = Native("tuple", lambda i, a, k: tuple(self._as_list(a[0])) if a else ())
         n["list"] = Native("list", lambda i, a, k: list(self._as_list(a[0])) if a else [])
-        n["iter"] = Native("iter", lambda i, a, k: list(self._as_list(a[0])))
+        n["iter"] = Native("iter", lambda i, a, k: a[0] if isinstance(a[0], LazyGen)
+                           else list(self._as_list(a[0])))
         n["range"] = Native("range", self._range)
         n["int"] = Native("int", self._int)
         n["str"] = Native("str", self._str_ctor)
@@ -838,6 +867,8 @@ class Interp:
         return [xs[j] for j in order]
 
     def _as_list(self, x):
+        if isinstance(x, LazyGen):
+            return x.take_all()
         if isinstance(x, (list, tuple)):
             return list(x)
         if isinstance(x, Obj) and x.listval is not None:
@@ -865,8 +896,8 @@ class Interp:
         if isinstance(v, TD):
             return v.mag != "zero"
         if isinstance(v, (TZ, Closure, Bound, Native, ClassVal, TypeTok, TimeVal, NativeObj, PropertyVal,
-                          RegexVal, MatchVal)):
-            return True
+                          RegexVal, MatchVal, LazyGen)):
+            return True         # (a generator object is always true, even an empty one)
         if isinstance(v, Obj):
             if v.cls is not None:
                 bm = self.model.lookup_method(v.cls, "__bool__")
@@ -1341,7 +1372,8 @@ class Interp:
                     return o.join(xs)
                 if any(isinstance(x, (str, bytes, int, type(None))) and not isinstance(x, type(o))
                        for x in xs):
-                    raise AbsRaise("TypeError", "sequence item: expected str instance")
+                    raise AbsRaise("TypeError", "sequence item: expected str instance" if isinstance(o, str)
+                                   else "sequence item: expected a bytes-like object")
                 return OpaqueStr("joined text")
             return Native("join", join)
         if name == "encode":
@@ -1448,9 +1480,10 @@ class Interp:
                 and name in ("append", "extend", "insert", "pop", "index", "count", "remove",
                              "sort", "reverse", "copy", "clear"):
             return self._list_method(o.listval, name)
-        if o.strval is not None and name in ("lower", "upper", "startswith", "endswith", "strip",
-                                             "encode", "replace", "split") \
-                and self.model.lookup_method(o.cls, name) is None:
+        if o.strval is not None and self.model.lookup_method(o.cls, name) is None and \
+                self.model.lookup_attr(o.cls, name)[1] is None and name not in o.attrs and \
+                not any(name in getattr(c, "properties", {}) for c in self.model.mro(o.cls)) and \
+                hasattr(str, name) and not name.startswith("__"):
             return self._str_method(o.strval, name)
         v = self._class_attr(o.cls, name, o)
         if isinstance(v, PropertyVal):
@@ -1635,6 +1668,13 @@ class Interp:
 
     def _next(self, i, a, k):
         src = a[0]
+        if isinstance(src, LazyGen):
+            try:
+                return src.take_one()
+            except AbsRaise as e:
+                if e.cls_name == "StopIteration" and len(a) > 1:
+                    return a[1]
+                raise
         seen = self.__dict__.setdefault("_next_seen", [])
         if isinstance(src, list):
             if any(x is src for x in seen):
@@ -2063,7 +2103,9 @@ class Interp:
             self.ops_seen.add("date+timedelta(seconds) drops time")
             return DT("date", None, term, None, tag="seconds-dropped")
         rank = d.rank
-        if rank is not None and td.mag != "zero":
+        if rank is not None and td.secs is not None and d.term is not None and set(d.term) <= {"second"}:
+            rank = rank + sign * td.secs        # concrete instant, concrete duration
+        elif rank is not None and td.mag != "zero":
             # abstract durations are positive: the result is strictly later/earlier
             rank = rank + (0.5 if sign > 0 else -0.5)
         tag = d.tag if d.tag == "seconds-dropped" else None
@@ -2132,12 +2174,15 @@ class Interp:
                 except TypeError as e:
                     raise AbsRaise("TypeError", str(e))
                 tz = kwargs.get("tzinfo")
+                # a concrete wall time is ordered against other concrete ones
+                epoch = int((_dt.datetime(*args) - _dt.datetime(1970, 1, 1)).total_seconds())
                 if isinstance(tz, TZ):
-                    return DT("utc" if tz.kind == "utc" else "zoned", None, None,
-                              None if tz.kind == "utc" else tz.key_, tag="from-fields")
+                    if tz.kind == "utc":
+                        return DT("utc", epoch, {"second": epoch}, None, tag="from-fields")
+                    return DT("zoned", None, None, tz.key_, tag="from-fields")
                 if tz is not None:
                     raise Unsupported(f"datetime(..., tzinfo={tz!r})")
-                return DT("naive", None, None, None, tag="from-fields")
+                return DT("naive", epoch, {"second": epoch}, None, tag="from-fields")
             raise Unsupported("datetime(...) constructor")
         if t.name == "date":
             if args and all(isinstance(a, int) and not isinstance(a, bool) for a in args):
@@ -2148,7 +2193,8 @@ class Interp:
                     raise AbsRaise("ValueError", str(e))
                 except TypeError as e:
                     raise AbsRaise("TypeError", str(e))
-                return DT("date", None, None, None, tag="from-fields")
+                epoch = (_dt.date(*args) - _dt.date(1970, 1, 1)).days * 86400
+                return DT("date", epoch, {"second": epoch}, None, tag="from-fields")
             raise Unsupported("date(...) constructor")
         if t.name == "time":
             if all(isinstance(a, int) and not isinstance(a, bool) for a in args):
@@ -2226,6 +2272,7 @@ class Interp:
         return o
 
     def _mapping_init(self, o, args, kwargs):
+        args = [a.take_all() if isinstance(a, LazyGen) else a for a in args]
         for m in args:
             if isinstance(m, Obj) and m.items is not None:
                 for k, v in m.items.items():
@@ -2355,12 +2402,25 @@ class Interp:
                              for n in _walk_fn(node))
                 _GEN_CACHE[id(node)] = is_gen
             if is_gen:
-                env.yields = []
+                def thunk(env=env, node=node):
+                    env.yields = []
+                    self.depth += 1
+                    try:
+                        if self.depth > self.MAX_DEPTH:
+                            raise Unsupported("inlining depth exceeded")
+                        try:
+                            self.exec_block(node.body, env)
+                        except _Return:
+                            pass
+                    finally:
+                        self.depth -= 1
+                    return env.yields
+                return LazyGen(thunk)
             try:
                 self.exec_block(node.body, env)
             except _Return as r:
-                return env.yields if is_gen else r.value
-            return env.yields if is_gen else None
+                return r.value
+            return None
         finally:
             self.depth -= 1
 
@@ -2634,7 +2694,16 @@ class Interp:
                 elif isinstance(v, ast.Constant):
                     parts.append(str(v.value))
             return "".join(parts) if concrete else OpaqueStr("formatted text")
-        if isinstance(e, (ast.ListComp, ast.GeneratorExp, ast.SetComp)):
+        if isinstance(e, ast.GeneratorExp):
+            # the outermost iterable is evaluated where the generator is created
+            first = self._as_list(self.eval(e.generators[0].iter, env))
+
+            def thunk(e=e, env=env, first=first):
+                out = []
+                self._comp(e.generators, 0, env, lambda en: out.append(self.eval(e.elt, en)), first)
+                return out
+            return LazyGen(thunk)
+        if isinstance(e, (ast.ListComp, ast.SetComp)):
             out = []
             self._comp(e.generators, 0, env, lambda en: out.append(self.eval(e.elt, en)))
             return out if not isinstance(e, ast.SetComp) else set(out)
@@ -2672,12 +2741,12 @@ class Interp:
                 out.append(self.eval(x, env))
         return out
 
-    def _comp(self, gens, i, env, emit):
+    def _comp(self, gens, i, env, emit, first=None):
         if i == len(gens):
             emit(env)
             return
         g = gens[i]
-        for x in self._as_list(self.eval(g.iter, env)):
+        for x in (first if first is not None and i == 0 else self._as_list(self.eval(g.iter, env))):
             sub = env.child()
             self.assign(g.target, x, sub)
             if all(self.truth(self.eval(c, sub)) for c in g.ifs):
@@ -2749,7 +2818,7 @@ class Interp:
             elif base in ("int",) and len(args) >= 2:
                 o.attrs["intval"] = self._int(self, [args[1]], {})
             elif base == "float":
-                o.attrs["floatval"] = args[1] if len(args) > 1 else 0.0
+                o.attrs["floatval"] = self._call_type(TypeTok("float"), list(args[1:2]), {})
             return o
         if meth == "__eq__" and isinstance(selfv, Obj) and selfv.items is not None:
             other = args[0]
